@@ -5,6 +5,8 @@
 // and bytes together with a STRICTLY SHORTER rest (its contract); the repo's loop over PEM blocks must make progress
 // (each call gets the rest of the previous one) - checked by a ghost measure. Up to pem_blocks_max blocks per file.
 //verif:pkg x509
+// for the bounded inputs of these harnesses no loop of the code under test runs anywhere near 300 iterations: more is a hang
+//verif:terminates github.com/notaryproject/notation-core-go/ 300
 //verif:harness H_C09_read_certificates
 //verif:harness H_C09_read_private_key
 //verif:stub os.ReadFile -> stubReadFile
